@@ -12,6 +12,14 @@ ROW_MAP = 'std::collections::HashMap<u32, std::collections::HashMap<u32, screen:
 CELL_MAP = 'std::collections::HashMap<u32, screen::CharOpts>'
 
 
+class Cnt(int):
+    """an instance count that also knows during which entry points (methods) instances were seen"""
+    def __new__(cls, n, eps=()):
+        o = int.__new__(cls, n)
+        o.eps = {x.split('::')[-1] for x in eps if x}
+        return o
+
+
 def level_of(e):
     """'row' if the operation is on a row map (u32 -> row), 'cell' if on a row (u32 -> CharOpts)"""
     path = e['ev'][1] if len(e['ev']) > 1 else None
@@ -83,6 +91,7 @@ def r_grid(ctx, chk, funcs=None, rule='R-GRID'):
     eng = sr['engine']
     prog = ctx.prog
     sites = {}
+    eps_seen = set()
     for e in sr['events']:
         ev = e['ev']
         if ev[0] not in ('map.insert', 'map.entry_or_insert'):
@@ -103,6 +112,7 @@ def r_grid(ctx, chk, funcs=None, rule='R-GRID'):
             ok = ok2
             why = w
         k = (short(e['func']), '%s key < %s @%s' % (lvl, 'lines' if lvl == 'row' else 'columns', site_ord(prog, e)))
+        eps_seen.add(e['ep'])
         a = sites.setdefault(k, dict(ok=True, n=0, why='', span=e['span']))
         a['n'] += 1
         if not ok and a['ok']:
@@ -113,7 +123,7 @@ def r_grid(ctx, chk, funcs=None, rule='R-GRID'):
     for (f, c), a in sorted(sites.items()):
         chk.instance(rule, f, c, a['ok'], detail=a['why'] or '%d visits, key always inside the grid' % a['n'], span=a['span'],
                      what='a cell / row can be stored outside the visible grid (hidden state that later edits or a resize can bring back): ' + a['why'])
-    return len(sites)
+    return Cnt(len(sites), eps_seen)
 
 
 # ---------------------------------------------------------------------------
@@ -288,6 +298,7 @@ def r_absent(ctx, chk, funcs, rule='R-ABSENT'):
     default_char_canonical(ctx, chk, rule)
     # (a)
     sites = {}
+    eps_a, eps_b = set(), set()
     for e in sr['events']:
         ev = e['ev']
         if ev[0] != 'map.entry_or_insert' or e['func'] not in funcs:
@@ -295,6 +306,7 @@ def r_absent(ctx, chk, funcs, rule='R-ABSENT'):
         lvl = level_of(e)
         if lvl is None:
             continue
+        eps_a.add(e['ep'])
         v = ev[3]
         if lvl == 'row':
             ok = isinstance(v, CollV) and v.known == ()
@@ -327,6 +339,7 @@ def r_absent(ctx, chk, funcs, rule='R-ABSENT'):
             func = ev[5] if len(ev) > 5 else seg['func']
             if func not in funcs:
                 continue
+            eps_b.add(seg['ep'])
             tag = kind.rsplit('.', 1)[1]
             op = kind.rsplit('.', 1)[0]
             lvl = 'row' if len(path) == 2 else 'cell'
@@ -365,7 +378,7 @@ def r_absent(ctx, chk, funcs, rule='R-ABSENT'):
                      span=dict(file=body.span['file'], line=d['line']),
                      what='absent and materialised-default cells/rows are treated differently: when the looked-up %s is absent nothing is stored/removed at %s '
                           '(a stale value survives there), while a present one is stored' % ('row' if 'row' in site[1] else 'cell', missing))
-    return na, len(look)
+    return Cnt(na, eps_a), Cnt(len(look), eps_b)
 
 
 def row_sig(eng, st, path):
@@ -392,6 +405,7 @@ def r_dirty(ctx, chk, funcs, rule='R-DIRTY'):
     eng = sr['engine']
     prog = ctx.prog
     results = {}
+    eps_d = set()
     for seg in all_segments(sr, funcs):
         st = seg['st']
         pre, evs = seg_events(seg)
@@ -433,6 +447,7 @@ def r_dirty(ctx, chk, funcs, rule='R-DIRTY'):
         for (row, what, line, func) in writes:
             if func not in funcs:
                 continue
+            eps_d.add(seg['ep'])
             covered = False
             if row == 'ALL':
                 for m in marks:
@@ -495,7 +510,7 @@ def r_dirty(ctx, chk, funcs, rule='R-DIRTY'):
         ndef += 1
         chk.instance(rule, short(f), 'cursor row marked after the loop', cnt > 0 and not bad, detail='%d exit paths through the loop; unmarked: %s' % (cnt, bad[:2]),
                      span=prog.bodies[f].span, what='rows written inside the loop are left unmarked on exit (%s)' % bad[:1])
-    return len(results)
+    return Cnt(len(results), eps_d)
 
 
 def is_anon(v):
